@@ -320,6 +320,13 @@ pub fn ledger_counts(a: &Analysis, at: usize, _sample_pos: usize) -> ([usize; 8]
     let mut hi = [0usize; 8];
     for r in a.regs.iter().filter(|r| r.live_at(at)) {
         let mut uncertain = !r.certain;
+        // A one-off reactor revokes its own triggers at some point of its only run (C15 only says that none remains
+        // afterwards): from the start of that run on its registrations may or may not still be in the tables.
+        if a.insts.get(r.inst).map(|i| i.kind == SysKindTag::Once).unwrap_or(false)
+            && a.runs_of_inst.get(r.inst).and_then(|l| l.first()).map(|ri| a.runs[*ri].pos < at).unwrap_or(false)
+        {
+            uncertain = true;
+        }
         let idx = match r.trig {
             RTrig::Ins(_) => 0,
             RTrig::Mut(_) => 1,
